@@ -1,6 +1,7 @@
 ;; C09 (K-inner B): dump of the analysed AST before and after the registered optimisation passes (sexp_simplify),
 ;; in the prefix token syntax that ocaml/C09_driver.ml reads and prints:
-;;   L i<dec> | L t | L f | L v | L o<name>      an immediate or a lit node          B ...   a heap literal that is not a lit
+;;   I <c>  an immediate (not a pointer)      L <c>  a SEXP_LIT node (quoted datum, fold result)      B <c>  a heap datum that is not a lit
+;;   <c> = i<dec> | t | f | v | o<written form, spaces as ~>
 ;;   R <name> <lambda-id>    S <name> <lambda-id> <e>    C <t> <a> <b>    Q <n> <e>*    A <n> <f> <arg>*    O <opcode-name>
 ;;   M <id> <n> <param>* <rest 0|1> <m> <set-var>* <body>          lambda ids: order of first visit, 0 = global
 ;; props/C09.py appends (c09-case <n> '<form>) lines to a copy of this file.
@@ -17,14 +18,21 @@
 
 (define (emit . xs) (for-each (lambda (x) (write-string " ") (display x)) xs))
 
+(define (written v)
+  (let ((p (open-output-string)))
+    (write v p)
+    (list->string (map (lambda (c) (if (eqv? c #\space) #\~ c)) (string->list (get-output-string p))))))
+
 (define (dump-const tag v)
   (cond ((and (exact? v) (integer? v)) (emit tag (string-append "i" (number->string v))))
         ((eq? v #t) (emit tag "t"))
         ((eq? v #f) (emit tag "f"))
-        ((string? v) (emit tag (string-append "o" v)))
-        ((symbol? v) (emit tag (string-append "o" (symbol->string v))))
         ((eq? v (if #f #f)) (emit tag "v"))
-        (else (emit tag "o?"))))
+        (else (emit tag (string-append "o" (written v))))))
+
+;; a self-evaluating datum that analyze returned as itself: pointer (B) or immediate (I)?
+(define (heap-datum? x)
+  (or (string? x) (and (number? x) (not (fixnum? x))) (vector? x) (bytevector? x) (pair? x) (symbol? x)))
 
 (define (params->list ps) (cond ((pair? ps) (cons (car ps) (params->list (cdr ps)))) ((null? ps) '()) (else (list ps))))
 (define (dotted? ps) (cond ((pair? ps) (dotted? (cdr ps))) ((null? ps) #f) (else #t)))
@@ -48,12 +56,27 @@
    ((lit? x) (dump-const "L" (lit-value x)))
    ((pair? x) (emit "A" (length (cdr x))) (for-each dump x))
    ((opcode? x) (emit "O" (or (opcode-name x) "?")))
-   ((or (string? x) (and (number? x) (not (fixnum? x)))) (dump-const "B" x))
-   (else (dump-const "L" x))))
+   ((heap-datum? x) (dump-const "B" x))
+   (else (dump-const "I" x))))
+
+;; The pass runs INSIDE the dynamic extent of an exception handler and of a parameterize, as it does when a program
+;; calls eval/load under them.  Line "<n> H <calls>* <prm>": every call of the handler in order (h = during the pass,
+;; p = the probe raised after the pass, which must still reach the handler), then whether the parameter binding survived.
+;; The model (Kinded.fold_eval, theorem fold_eval_unobservable) says: no call during the pass, state restored: "p prm-ok".
+(define c09-prm (make-parameter 0))
 
 (define (c09-case n form)
   (set! lam-ids '())
-  (let ((ast (analyze form)))
-    (write n) (write-string " A") (dump ast) (newline)
-    (let ((opt (optimize ast)))
-      (write n) (write-string " B") (dump opt) (newline))))
+  (guard (e (#t (write n) (write-string " X escaped") (newline)))
+    (let ((ast (analyze form)) (tr '()))
+      (write n) (write-string " A") (dump ast) (newline)
+      (let ((res (with-exception-handler
+                  (lambda (e) (set! tr (cons (if (eq? e 'c09-probe) "p" "h") tr)) 0)
+                  (lambda ()
+                    (parameterize ((c09-prm (+ n 1)))
+                      (let ((opt (optimize ast)))
+                        (raise-continuable 'c09-probe)
+                        (cons opt (c09-prm))))))))
+        (write n) (write-string " B") (dump (car res)) (newline)
+        (write n) (write-string " H") (for-each emit (reverse tr))
+        (emit (if (eqv? (cdr res) (+ n 1)) "prm-ok" "prm-lost")) (newline)))))
